@@ -74,6 +74,16 @@ type Swamp interface {
 	// 2. Populating the treasure with data before storing it in the Swamp.
 	CreateTreasure(key string) treasure.Treasure
 
+	// LockTreasure returns the treasure that is stored under the key at the moment its guard is held (creating an
+	// in-flight treasure when there is none), together with the guard ID. Use it instead of CreateTreasure +
+	// StartTreasureGuard: between those two calls a concurrent delete can take the object out of the swamp, and a
+	// write on that orphan would be saved as a deleted record. The caller releases the guard.
+	LockTreasure(key string) (treasureObj treasure.Treasure, guardID guard.ID, created bool)
+
+	// LockExistingTreasure is LockTreasure for callers that must not create: ok is false (and nothing is locked)
+	// when no treasure is stored under the key.
+	LockExistingTreasure(key string) (treasureObj treasure.Treasure, guardID guard.ID, ok bool)
+
 	// GetTreasure retrieves a single "Treasure" from a "Swamp" by its unique key.
 	//
 	// This function takes a key string as a parameter, which uniquely identifies the desired treasure within the Swamp.
@@ -2063,6 +2073,25 @@ func (s *swamp) CountTreasuresWaitingForWriter() int {
 // its guard can be taken, so once the guard is held the function checks that the object is still the one
 // under the key: a concurrent delete may have removed it in between, and continuing on that orphan would
 // compute from a deleted value and re-insert it on Save. In that case it releases the guard and starts over.
+func (s *swamp) LockTreasure(key string) (treasure.Treasure, guard.ID, bool) {
+	return s.lockCurrentTreasure(key)
+}
+
+func (s *swamp) LockExistingTreasure(key string) (treasure.Treasure, guard.ID, bool) {
+	for {
+		treasureObj := s.beaconKey.Get(key)
+		if treasureObj == nil {
+			return nil, 0, false
+		}
+		guardID := treasureObj.StartTreasureGuard(true)
+		if s.beaconKey.Get(key) == treasureObj {
+			return treasureObj, guardID, true
+		}
+		// deleted (or replaced) while we waited for its guard: look again
+		treasureObj.ReleaseTreasureGuard(guardID)
+	}
+}
+
 func (s *swamp) lockCurrentTreasure(key string) (treasureObj treasure.Treasure, guardID guard.ID, created bool) {
 	for {
 		created = false
